@@ -39,7 +39,7 @@ func c02Invalid(r *rand.Rand, i int) (string, string) {
 	case 3:
 		return "unbalanced quotes", "route add svc a.test/ http://1.2.3.4:80/ tags \"a,b"
 	case 4:
-		return "weight matches nothing", "route weight nosuchservice nosuch.test/ weight 0.5"
+		return "weight for a route without a path", "route weight nosuchservice weight 0.5"
 	case 5:
 		return "garbage", "\x00\x01 not a route \xff"
 	case 6:
@@ -53,7 +53,7 @@ func c02Invalid(r *rand.Rand, i int) (string, string) {
 }
 
 func c02Updates(c *ctx) {
-	c.R.Rule = "update-loop histories through the real binary: (1) Consul backend, alternating valid and invalid-by-construction manual configurations (unknown command, missing argument, bad weight, unbalanced quotes, weight without match, garbage, >4KiB and >64KiB texts) interleaved with service changes; after every barrier the active table must equal the model, which changes only on valid input, while 8 clients request a route present in every valid generation; (2) custom backend fed valid arrays, invalid JSON, null, bad definitions and HTTP 500. evaluations = update steps checked; non-trivial = step that follows an invalid update (the next valid one must still be applied) or an invalid step itself; distinct by step text"
+	c.R.Rule = "update-loop histories through the real binary: (1) Consul backend, alternating valid and invalid-by-construction manual configurations (unknown command, missing argument, bad weight, unbalanced quotes, weight without source, garbage, >4KiB and >64KiB texts) interleaved with service changes; after every barrier the active table must equal the model, which changes only on valid input, while 8 clients request a route present in every valid generation; (2) custom backend fed valid arrays, invalid JSON, null, bad definitions and HTTP 500. evaluations = update steps checked; non-trivial = step that follows an invalid update (the next valid one must still be applied) or an invalid step itself; distinct by step text"
 	var wg sync.WaitGroup
 	wg.Add(2)
 	go func() { defer wg.Done(); c02Consul(c) }()
